@@ -246,4 +246,33 @@ example : inFragment ExprSim_mindsdb.F ExprSim_mindsdb.ex2 = true ∧
     inFragment ExprSim_sqlite.F ExprSim_sqlite.ex2 = true ∧
     inFragment ExprSim_mysql.F ExprSim_mysql.ex2 = true := by decide
 
+/-! ### [review] additions (reviewer rev-lr-opm): the whole statement, run to acceptance -/
+
+/-- [review] `xs` occurs as a contiguous block of `ys` -/
+def reviewInfix (xs : List Nat) : List Nat → Bool
+  | [] => xs.isEmpty
+  | y :: ys => LR.isPrefix xs (y :: ys) || reviewInfix xs ys
+
+/-- [review] run `LR.parse` on `SELECT <e> FROM <id>` to the end: accepted, frontier = all tokens, and the
+reductions of `tree C P e` form one contiguous block of the log -/
+def reviewFullRun (T : Tables) (C : Cert) (P : Table) (mode : Mode) (tSel tFrom : Nat) (e : Expr) : Bool :=
+  match parse T mode false (tSel :: (toks C P e ++ [tFrom, C.atomTok])) 10000 with
+  | .accept t log =>
+    t.yield == tSel :: (toks C P e ++ [tFrom, C.atomTok]) &&
+    reviewInfix (tree C P e).postorder log.reverse
+  | _ => false
+
+/-- [review] end to end, continuing the `observe` examples to the end of the statement: the WHOLE statement
+`SELECT (a OR b) AND NOT c BETWEEN (d = e) AND - f * (g + h) FROM t` is accepted by the driver on the real
+mindsdb / sqlite tables, its frontier is the whole token list, and the reductions of the predicted expression tree
+occur as one contiguous block of the semantic-action log -/
+example : reviewFullRun Tables_mindsdb.tables ExprSim_mindsdb.cert Prec_mindsdb.P .drain ExprSim_mindsdb.tokSELECT
+    ExprSim_mindsdb.tokFROM (addParens Prec_mindsdb.S ExprSim_mindsdb.ex2) = true := by decide +kernel
+example : reviewFullRun Tables_sqlite.tables ExprSim_sqlite.cert Prec_sqlite.P .raise ExprSim_sqlite.tokSELECT
+    ExprSim_sqlite.tokFROM (addParens Prec_sqlite.S ExprSim_sqlite.ex2) = true := by decide +kernel
+-- [review] ... while for the un-parenthesised print of `ex2` (a different grouping) the check fails: the driver does
+-- not perform the reductions of `ex2`'s own tree
+example : reviewFullRun Tables_mindsdb.tables ExprSim_mindsdb.cert Prec_mindsdb.P .drain ExprSim_mindsdb.tokSELECT
+    ExprSim_mindsdb.tokFROM ExprSim_mindsdb.ex2 = false := by decide +kernel
+
 end MindsVerif.Props.C03B
